@@ -66,8 +66,11 @@ type Case struct {
 	VSAuth         bool     `json:"vs_auth,omitempty"` // advertise S6a (16777251, vendor 10415) as Vendor-Specific-Application-Id
 	StateID        uint32   `json:"state_id,omitempty"`
 	Firmware       uint32   `json:"firmware,omitempty"`
-	Script         []string `json:"script"` // reaction to transmission 1, 2, ... (missing entries: silence)
-	Extras         []string `json:"extras,omitempty"`
+	// SharedBacking: the three application lists handed to the Client are sub-slices of one array.
+	SharedBacking bool     `json:"shared_backing,omitempty"`
+	Layout        int      `json:"layout,omitempty"` // order of the lists in that array
+	Script        []string `json:"script"`           // reaction to transmission 1, 2, ... (missing entries: silence)
+	Extras        []string `json:"extras,omitempty"`
 }
 
 func (c Case) interval() time.Duration { return time.Duration(c.IntervalMs) * time.Millisecond }
@@ -201,6 +204,20 @@ func runOnce(c Case) result {
 	if c.VSAuth {
 		cli.VendorSpecificApplicationID = append(cli.VendorSpecificApplicationID, diam.NewAVP(avp.VendorSpecificApplicationID, avp.Mbit, 0, &diam.GroupedAVP{AVP: []*diam.AVP{
 			diam.NewAVP(avp.VendorID, avp.Mbit, 0, datatype.Unsigned32(10415)), diam.NewAVP(avp.AuthApplicationID, avp.Mbit, 0, datatype.Unsigned32(16777251))}}))
+	}
+	if c.SharedBacking {
+		// the application cut its three lists out of ONE array (in one of the six orders, with room
+		// to spare behind them): a client that appends to a list it was given writes into its neighbours
+		lists := [3][]*diam.AVP{cli.AcctApplicationID, cli.AuthApplicationID, cli.VendorSpecificApplicationID}
+		order := [6][3]int{{0, 1, 2}, {0, 2, 1}, {1, 0, 2}, {1, 2, 0}, {2, 0, 1}, {2, 1, 0}}[c.Layout%6]
+		all := make([]*diam.AVP, 0, len(lists[0])+len(lists[1])+len(lists[2])+4)
+		var cut [3][]*diam.AVP
+		for _, k := range order {
+			from := len(all)
+			all = append(all, lists[k]...)
+			cut[k] = all[from:len(all)]
+		}
+		cli.AcctApplicationID, cli.AuthApplicationID, cli.VendorSpecificApplicationID = cut[0], cut[1], cut[2]
 	}
 	// the scripted peer reacts inside the transport's Write, i.e. before the client starts waiting
 	var tx int
@@ -486,7 +503,9 @@ func genCase(t *rapid.T) Case {
 	case 1:
 		c.ConfiguredIPs = [][]byte{{192, 0, 2, 1}, {0x20, 0x01, 0x0d, 0xb8, 0, 0, 0, 0, 0, 0, 0, 0, 0, 0, 0, 2}}
 	}
-	switch rapid.IntRange(0, 4).Draw(t, "apps") {
+	switch rapid.IntRange(0, 6).Draw(t, "apps") {
+	case 5, 6:
+		c.Auth, c.Acct, c.VSAuth = []uint32{4}, []uint32{3}, true
 	case 0:
 		c.Auth = []uint32{4}
 	case 1:
@@ -504,6 +523,8 @@ func genCase(t *rapid.T) Case {
 	if rapid.Bool().Draw(t, "firmware") {
 		c.Firmware = 7
 	}
+	c.SharedBacking = rapid.IntRange(0, 2).Draw(t, "shared-backing") == 0
+	c.Layout = rapid.IntRange(0, 5).Draw(t, "layout")
 	n := rapid.IntRange(0, c.MaxRetransmits+1).Draw(t, "silent-first")
 	for i := 0; i < n; i++ {
 		c.Script = append(c.Script, rapid.SampledFrom([]string{silence, silence, notCEA}).Draw(t, "no-reply"))
@@ -521,6 +542,9 @@ func classify(c Case) (bool, []string) {
 	cl := []string{fmt.Sprintf("budget:%d", c.MaxRetransmits+1), "local:" + c.LocalAddr}
 	if len(c.ConfiguredIPs) == 0 {
 		cl = append(cl, "derived-host-ip")
+	}
+	if c.SharedBacking {
+		cl = append(cl, "application-lists-share-one-array")
 	}
 	react := silence
 	if k-1 < len(c.Script) {
